@@ -433,8 +433,361 @@ def chk_hist(SF, args):
     return out
 
 
+# ---- call histories on the RADIUS interface of one ShapeFactor object (part R)
+# A case is {'ctor': …, 'ops': [...], 'Rscale': …}; ctor / setter ops as in the findRcrit histories, but the
+# radius-dependent aspect ratios are VECTORISED functions (arfun_vec: constant, linear, power law, saturating,
+# piecewise).  Further ops (the caller's side: argument objects have explicit names = identities):
+#   ['new', name, container, vals]            name = np.array(vals) | np.array(vals[0]) (0-d) | list(vals)
+#   ['view', name, base, [start, stop, step]] name = base[start:stop:step]  (a view of the buffer of `base`)
+#   ['mut', name, 'scale', c] R *= c | ['mut', name, 'shift', d] R += d | ['mut', name, 'assign', vals] R[:] = vals
+#   ['mut', name, 'setitem', k, v] R[k] = v
+#   ['eval', fn, ['obj', name]] | ['eval', fn, ['copy', name]] (fresh array with the contents of name)
+#   ['eval', fn, ['fresh', container, vals]]  container: ndarray | list | 0d | pyfloat | npfloat
+RFNS = WRAP + ['normalRadii']            # `which` of the model: 0 eqRadiusFactor 1 thermoFactor 2 kineticFactor 3 normalRadii
+
+
+def arfun_vec(kind, p0, p1, p2):
+    """aspect ratio as a function of the radius, element by element for arrays / lists / scalars"""
+    A = lambda R: np.asarray(R, dtype=float)
+    if kind == 0:
+        return lambda R: p0 + 0.0 * A(R)
+    if kind == 1:
+        return lambda R: p0 + p1 * (A(R) / p2)
+    if kind == 2:
+        return lambda R: p0 * (A(R) / p2) ** p1
+    if kind == 4:
+        return lambda R: np.where(A(R) < p2, p0, p0 + p1 * (A(R) / p2 - 1.0))
+    return lambda R: p0 + p1 / (1.0 + A(R) / p2)
+
+
+def realize_vec(spec):
+    return float(spec[1]) if spec[0] == 'S' else arfun_vec(int(spec[1]), spec[2], spec[3], spec[4])
+
+
+def rebuild(container, flat):
+    """a fresh argument of the same kind holding the values `flat`"""
+    if container in ('ndarray', 'view'):
+        return np.array(flat, dtype=float)
+    if container == 'list':
+        return [float(v) for v in flat]
+    if container == '0d':
+        return np.array(float(flat[0]))
+    if container == 'pyfloat':
+        return float(flat[0])
+    if container == 'npfloat':
+        return np.float64(flat[0])
+    raise ValueError(container)
+
+
+def rh_tols(ars):
+    """per element: 1e-12, but 1e-6 where 1 < ar < 1.001 (the source formulas cancel there, see CONT_TOL)"""
+    ars = np.asarray(ars, dtype=float).reshape(-1)
+    return np.where((ars > 1.0) & (ars < 1.001), 1e-6, 1e-12)
+
+
+def rh_close(a, b, tols, w):
+    a = np.asarray(a, dtype=float).reshape(-1); b = np.asarray(b, dtype=float).reshape(-1)
+    if len(a) != len(b) or len(a) != w * len(tols):
+        return False
+    return all(close(x, y, tols[i // w]) for i, (x, y) in enumerate(zip(a, b)))
+
+
+def rh_check_eval(SF, shape, spec, fn, container, cls, flat, out, unchanged, arg_after):
+    """the oracle after ONE evaluation: the answer is a function of the current configuration and of the
+    current VALUES of the argument only.  Returns [(key, what, observed, required)]"""
+    res = []
+    w = 3 if fn == 'normalRadii' else 1
+    where = '%s(R) on a %s ShapeFactor with aspect ratio %s, argument: %s (%s), current contents %s' % (
+        fn, shape, spec, cls, container, [float(v) for v in flat])
+    if not unchanged:
+        res.append(('argument-modified:radius-eval:' + container, 'the evaluation wrote into the caller\'s argument: ' + where,
+                    arg_after, [float(v) for v in flat]))
+    if spec[0] == 'S':
+        ars = np.full(len(flat), float(spec[1]))
+    else:
+        ars = np.asarray(realize_vec(spec)(np.array(flat, dtype=float)), dtype=float).reshape(-1)
+    tols = rh_tols(ars)
+    out_a = np.asarray(out, dtype=float)
+    # (1) a FRESH object configured identically, evaluated on a COPY of the current contents
+    fresh = SF.ShapeFactor(CLS_NAME[shape], realize_vec(spec))
+    exp = np.asarray(getattr(fresh, fn)(rebuild(container, flat)), dtype=float)
+    if out_a.shape != exp.shape:
+        res.append(('radius-eval-shape:' + cls, 'result shape differs from the one a fresh, identically configured ShapeFactor gives on a copy: ' + where,
+                    list(out_a.shape), list(exp.shape)))
+    elif not rh_close(out_a, exp, tols, w):
+        res.append(('radius-eval-depends-on-history:' + cls,
+                    'result differs from the one a fresh, identically configured ShapeFactor gives on a COPY of the current contents '
+                    '(the answer depends on the call history / on the identity of the argument object): ' + where,
+                    out_a.reshape(-1).tolist(), exp.reshape(-1).tolist()))
+    # (2) the description-level function of aspectRatio(current contents), aspect ratios computed by the harness
+    want = np.asarray(getattr(desc(SF, shape), fn)(ars.copy()), dtype=float).reshape(-1)
+    if not rh_close(out_a, want, tols, w):
+        res.append(('radius-eval-vs-description:%s:%s' % (cls, fn),
+                    'result is not description.%s(aspectRatio(current contents of R)): ' % fn + where + ', aspect ratios %s' % ars.tolist(),
+                    out_a.reshape(-1).tolist(), want.tolist()))
+    # (3) scalar calls element by element
+    of = out_a.reshape(-1)
+    if len(of) == w * len(flat):
+        for i, v in enumerate(flat[:8]):
+            sc = np.asarray(getattr(fresh, fn)(float(v)), dtype=float).reshape(-1)
+            if not rh_close(of[i * w:(i + 1) * w], sc, tols[i:i + 1], w):
+                res.append(('radius-eval-scalar-vs-array:%s:%s' % (cls, fn),
+                            'element %d of the result differs from the scalar call %s(%r) of a fresh ShapeFactor: ' % (i, fn, float(v)) + where,
+                            of[i * w:(i + 1) * w].tolist(), sc.tolist()))
+                break
+    return res
+
+
+def run_rhist(SF, case, check=True):
+    """execute a call history on ONE ShapeFactor; returns (records of the evaluations, violations).
+    Stops at the first evaluation whose oracle fails."""
+    ctor = case['ctor']
+    if ctor[0] == 'ctor':
+        shape, spec = ctor[1], ctor[2]
+        sf = SF.ShapeFactor(CLS_NAME[shape], realize_vec(spec))
+    elif ctor[0] == 'default':
+        sf = SF.ShapeFactor(); shape, spec = 'sphere', ['S', 1.0]
+    else:
+        sf = load_pp()('beta').shapeFactor; shape, spec = 'sphere', ['S', 1.0]
+    objs, kinds = {}, {}
+    prev = None                    # (name, contents) of the argument of the previous evaluation
+    seen = set()
+    recs, viol = [], []
+    fresh_id = 1000
+    for idx, op in enumerate(case['ops']):
+        t = op[0]
+        if t == 'ar':
+            spec = op[1]; sf.setAspectRatio(realize_vec(spec))
+        elif t == 'shape':
+            shape, spec = op[1], op[2]
+            if op[3] == 'name':
+                sf.setPrecipitateShape(CLS_NAME[shape], realize_vec(spec))
+            elif op[3] == 'NAME':
+                sf.setPrecipitateShape(CLS_NAME[shape].upper(), realize_vec(spec))
+            else:
+                getattr(sf, SETTER[shape])(realize_vec(spec))
+        elif t == 'spherical':
+            sf.setSpherical(); shape, spec = 'sphere', ['S', 1.0]
+        elif t == 'new':
+            objs[op[1]] = rebuild(op[2], op[3]); kinds[op[1]] = op[2]
+        elif t == 'view':
+            a, b, c = op[3]
+            objs[op[1]] = objs[op[2]][slice(a, b, c)]; kinds[op[1]] = 'view'
+            if not isinstance(objs[op[1]], np.ndarray) or objs[op[1]].base is None or objs[op[1]].size == 0:
+                raise ValueError('harness: not a non-empty view: %r' % (op,))
+        elif t == 'mut':
+            x, k = objs[op[1]], kinds[op[1]]
+            if op[2] == 'scale':
+                if k == 'list':
+                    x[:] = [v * op[3] for v in x]
+                else:
+                    x *= op[3]
+            elif op[2] == 'shift':
+                if k == 'list':
+                    x[:] = [v + op[3] for v in x]
+                else:
+                    x += op[3]
+            elif op[2] == 'assign':
+                if k == '0d':
+                    x[...] = op[3][0]
+                else:
+                    x[:] = [float(v) for v in op[3]]
+            else:
+                if k == '0d':
+                    x[...] = op[4]
+                else:
+                    x[op[3]] = float(op[4])
+        elif t == 'eval':
+            fn, a = op[1], op[2]
+            if a[0] == 'obj':
+                arg, cont, name, oid = objs[a[1]], kinds[a[1]], a[1], int(a[1])
+            elif a[0] == 'copy':
+                arg, cont, name, oid = np.array(objs[a[1]], dtype=float), 'ndarray', None, fresh_id
+            else:
+                arg, cont, name, oid = rebuild(a[1], a[2]), a[1], None, fresh_id
+            fresh_id += name is None
+            before = snapshot(arg)
+            flat = np.asarray(before, dtype=float).reshape(-1)
+            if name is None:
+                cls = 'fresh-copy-of-object' if a[0] == 'copy' else 'fresh-' + cont
+            elif prev is not None and prev[0] == name:
+                cls = 'same-object-unchanged' if np.array_equal(prev[1], flat) else 'same-object-mutated-in-place'
+            elif name in seen:
+                cls = 'object-revisited'
+            else:
+                cls = 'object-first-use'
+            out = getattr(sf, fn)(arg)
+            unchanged = same(before, arg)
+            rec = {'op': idx, 'fn': fn, 'oid': oid, 'cls': cls, 'container': cont, 'flat': flat, 'out': np.asarray(out, dtype=float),
+                   'shape': shape, 'spec': spec}
+            recs.append(rec)
+            if check:
+                viol = rh_check_eval(SF, shape, spec, fn, cont, cls, flat, out, unchanged,
+                                     np.asarray(arg, dtype=float).reshape(-1).tolist())
+                if viol:
+                    break
+            prev = (name, flat); seen.add(name)
+        else:
+            raise ValueError('harness: unknown op %r' % (op,))
+    return recs, viol
+
+
+def shrink_rhist(SF, case, key):
+    """drop calls that are not needed for the violation `key` (the last op is the failing evaluation)"""
+    ops = list(case['ops'])
+    i = len(ops) - 2
+    while i >= 0:
+        trial = dict(case, ops=ops[:i] + ops[i + 1:])
+        try:
+            recs, viol = run_rhist(SF, trial)
+            hit = any(v[0] == key for v in viol) and recs and recs[-1]['op'] == len(trial['ops']) - 1
+        except Exception:
+            hit = False
+        if hit:
+            ops = trial['ops']
+        i -= 1
+    return dict(case, ops=ops)
+
+
+def chk_rhist(SF, args):
+    return run_rhist(SF, args)[1]
+
+
+def gen_vspec(rng, Rs, force=None):
+    t = force or rng.choice(['S', 'F', 'F', 'F'])
+    if t == 'S':
+        return ['S', rng.choice([0.5, 1.0, 1.2, 2.3, 3.5, 7.0, 40.0, math.exp(rng.uniform(0, math.log(100)))])]
+    kind = rng.choice([0, 1, 1, 2, 2, 2, 3, 3, 4, 4])
+    if kind == 0:
+        p0, p1 = rng.choice([0.5, 1.2, 2.3, 7.0, 40.0]), 0.0
+    elif kind == 1:
+        p0, p1 = rng.choice([0.2, 0.4, 0.95, 1.0, 1.5, 3.0]), rng.choice([0.1, 0.5, 1.0, 2.0])
+    elif kind == 2:
+        p0, p1 = rng.choice([0.7, 1.3, 1.5, 2.3, 5.0]), rng.choice([0.5, 0.8, 1.1, 2.0, -0.5])
+    elif kind == 3:
+        p0, p1 = rng.choice([0.5, 1.0, 2.0]), rng.choice([1.0, 5.0, 30.0])
+    else:
+        p0, p1 = rng.choice([0.8, 1.0, 2.5]), rng.choice([0.5, 2.0, 6.0])
+    return ['F', kind, p0, p1, Rs]
+
+
+def gen_rhist_case(rng, allow_pp=True):
+    Rs = 10 ** rng.uniform(-10, -8)
+    radius = lambda: Rs * math.exp(rng.uniform(math.log(0.05), math.log(50.0)))
+    shp = lambda: rng.choice(['needle', 'needle', 'needle', 'plate', 'plate', 'plate', 'cuboid', 'cuboid', 'sphere'])
+    c = rng.random()
+    if c < 0.6:
+        ctor = ['ctor', shp(), gen_vspec(rng, Rs)]
+    elif c < 0.92 or not allow_pp:
+        ctor = ['default']
+    else:
+        ctor = ['pp']
+    ops, lens, kinds = [], {}, {}
+    nxt = [0]
+
+    def new_obj():
+        cont = rng.choice(['ndarray', 'ndarray', 'ndarray', 'ndarray', 'list', '0d'])
+        n = 1 if cont == '0d' else rng.choice([1, 2, 3, 5, 8, 13])
+        name = nxt[0]; nxt[0] += 1
+        ops.append(['new', name, cont, [radius() for _ in range(n)]]); lens[name] = n; kinds[name] = cont
+        return name
+
+    def new_view():
+        bases = [k for k in lens if kinds[k] in ('ndarray', 'view') and lens[k] >= 2]
+        if not bases:
+            return new_obj()
+        b = rng.choice(bases); n = lens[b]
+        sl = rng.choice([[0, n - 1, 1], [1, None, 1], [None, None, 2], [None, None, -1], [None, None, 1], [n // 2, None, 1]])
+        m = len(range(n)[slice(*sl)])
+        if m == 0:
+            return new_obj()
+        name = nxt[0]; nxt[0] += 1
+        ops.append(['view', name, b, sl]); lens[name] = m; kinds[name] = 'view'
+        return name
+
+    def mutate(name):
+        n, k = lens[name], kinds[name]
+        how = rng.choice(['scale', 'scale', 'shift', 'assign', 'setitem'])
+        if how == 'scale':
+            ops.append(['mut', name, 'scale', rng.choice([2.0, 0.5, 1.3, 10.0, 0.1, rng.uniform(0.3, 4.0)])])
+        elif how == 'shift':
+            ops.append(['mut', name, 'shift', Rs * rng.uniform(0.1, 3.0)])
+        elif how == 'assign':
+            ops.append(['mut', name, 'assign', [radius() for _ in range(n)]])
+        else:
+            ops.append(['mut', name, 'setitem', rng.randrange(n), radius()])
+
+    def cfg():
+        o = rng.random()
+        if o < 0.5:
+            ops.append(['ar', gen_vspec(rng, Rs)])
+        elif o < 0.93:
+            sh = shp()
+            via = rng.choice(['name', 'name', 'NAME', 'method']) if sh != 'sphere' else 'name'
+            ops.append(['shape', sh, gen_vspec(rng, Rs), via])
+        else:
+            ops.append(['spherical'])
+
+    fn = lambda: rng.choice(RFNS)
+    if ctor[0] != 'ctor' or rng.random() < 0.3:
+        cfg()
+    for _ in range(rng.choice([2, 3, 4, 6, 9])):
+        e = rng.random()
+        if e < 0.15:
+            cfg()
+        elif e < 0.30:
+            cont = rng.choice(['ndarray', 'list', '0d', 'pyfloat', 'npfloat'])
+            n = rng.choice([1, 2, 3, 5, 8]) if cont in ('ndarray', 'list') else 1
+            ops.append(['eval', fn(), ['fresh', cont, [radius() for _ in range(n)]]])
+        else:
+            # an episode on one argument object: evaluate, then (update in place | leave | touch an alias) and evaluate again
+            r = rng.random()
+            name = new_obj() if (not lens or r < 0.35) else new_view() if r < 0.5 else rng.choice(list(lens))
+            ops.append(['eval', fn(), ['obj', name]])
+            for _ in range(rng.choice([1, 1, 2, 3])):
+                m = rng.random()
+                if m < 0.6:
+                    mutate(name)
+                elif m < 0.72:
+                    alias = [k for k in lens if k != name and kinds[k] in ('ndarray', 'view') and kinds[name] in ('ndarray', 'view')]
+                    if alias:
+                        mutate(rng.choice(alias))          # possibly the same buffer seen through another view
+                elif m < 0.8:
+                    ops.append(['eval', fn(), ['copy', name]])
+                elif m < 0.86:
+                    cfg()
+                ops.append(['eval', fn(), ['obj', name]])
+    return {'ctor': ctor, 'ops': ops, 'Rscale': Rs}
+
+
+def enc_rhist(c, recs):
+    ctor = c['ctor']
+    t = ['c15.rhist']
+    if ctor[0] == 'ctor':
+        t += ['0', str(SID[ctor[1]]), enc_spec(ctor[2])]
+    elif ctor[0] == 'default':
+        t += ['0', '3', enc_spec(['S', 1.0])]
+    else:
+        t += ['1']
+    byop = {r['op']: r for r in recs}
+    last = max(byop) if byop else -1
+    enc = []
+    for i, op in enumerate(c['ops'][:last + 1]):
+        if op[0] == 'ar':
+            enc.append('0 ' + enc_spec(op[1]))
+        elif op[0] == 'shape':
+            enc.append('1 %d %s' % (SID[op[1]], enc_spec(op[2])))
+        elif op[0] == 'spherical':
+            enc.append('2')
+        elif op[0] == 'eval':
+            r = byop[i]
+            enc.append('3 %d %d %s' % (RFNS.index(r['fn']), r['oid'], enc_list(r['flat'])))
+    t.append(str(len(enc)))
+    return ' '.join(t + enc)
+
+
 CHECKS = {'axes': chk_axes, 'quad': chk_quad, 'at_one': chk_at_one, 'continuity': chk_continuity,
-          'monotone': chk_monotone, 'wrapper': chk_wrapper, 'hist': chk_hist}
+          'monotone': chk_monotone, 'wrapper': chk_wrapper, 'hist': chk_hist, 'rhist': chk_rhist}
 
 
 # ------------------------------------------------------------------ robustness: nothing aborts corr()
@@ -720,6 +1073,38 @@ def _corr(ctx, oracle_only=False, scale=1):
                 lines.append(enc_hist(c)); after.append(('hist', c, r, visited, shape, spec, near))
         apply_check(res, guard, SF, 'hist', c)
 
+    # ---------------- (R) call histories on the radius interface of one object
+    nR = ctx.n(260, 25000) * scale
+    nppR = 0
+    for i in range(nR):
+        c = gen_rhist_case(rng, allow_pp=pp_ok and nppR < ctx.n(15, 800))
+        nppR += c['ctor'][0] == 'pp'
+        case = {'chk': 'rhist', 'args': c}
+        with guard('radius-interface-history', case):
+            recs, viol = run_rhist(SF, c)
+            func_evals = [r for r in recs if r['spec'][0] == 'F' and r['spec'][1] != 0]
+            res.case(('R', json.dumps(c, sort_keys=True)), any(r['cls'] == 'same-object-mutated-in-place' for r in func_evals))
+            res.count('R:ctor:' + c['ctor'][0]); res.count('R:evaluations', len(recs))
+            for r in recs:
+                res.count('R:arg:' + r['cls']); res.count('R:container:' + r['container']); res.count('R:fn:' + r['fn'])
+                res.count('R:config:' + ('function-of-R' if r['spec'][0] == 'F' and r['spec'][1] != 0 else 'constant'))
+                if r['spec'][0] == 'F':
+                    res.count('R:family:%d' % r['spec'][1])
+            for o in c['ops']:
+                if o[0] == 'mut':
+                    res.count('R:mut:' + o[2])
+            if len(res.samples) < 4 and recs and not any(x.get('part') == 'R' for x in res.samples):
+                res.sample({'part': 'R', 'ctor': c['ctor'], 'ops': c['ops'][:8], 'first result': recs[0]['out'].reshape(-1).tolist()[:4]}, cap=4)
+            res.traces += 1
+            if viol:
+                cut = dict(c, ops=c['ops'][:recs[-1]['op'] + 1])
+                small = shrink_rhist(SF, cut, viol[0][0])
+                for key, what, obs, req in viol:
+                    sc = small if key == viol[0][0] else cut
+                    res.violate(key, what + ' | history: %s then %s' % (sc['ctor'], sc['ops']), {'chk': 'rhist', 'args': sc}, obs, req)
+            if use_model and recs:
+                lines.append(enc_rhist(c, recs)); after.append(('rhist', c, recs))
+
     # ---------------- model answers
     if use_model:
         ans = None
@@ -770,6 +1155,28 @@ def _corr(ctx, oracle_only=False, scale=1):
                                 res.disagree('findRcrit (fallback, iterations, result)', c, [iters >= 100, iters, r], [mfb, mit, mr])
                     elif not close(mr, r, 1e-12):
                         res.disagree('findRcrit, constant aspect ratio', c, r, mr)
+
+                elif what[0] == 'rhist':
+                    _, c, recs = what
+                    mshape, n = t.nat(), t.nat()
+                    if n != len(recs) or mshape != SID[recs[-1]['shape']]:
+                        res.disagree('radius-interface history: number of evaluations / shape after the last one', c,
+                                     [len(recs), recs[-1]['shape']], [n, mshape]); continue
+                    for r in recs:
+                        mcorrect, mmemo = t.flts(), t.flts()
+                        if r['spec'][0] == 'S':
+                            ars = np.full(len(r['flat']), float(r['spec'][1]))
+                        else:
+                            ars = np.asarray(realize_vec(r['spec'])(np.array(r['flat'])), dtype=float).reshape(-1)
+                        if np.any(np.abs(ars - 1.0) <= 1e-12) and not np.all(ars == 1.0):
+                            res.near_tie_skipped += 1; continue          # the clamp at ar = 1 decides on the last bit
+                        if not vlib.all_close(r['out'].reshape(-1), mcorrect, 1e-9):
+                            res.disagree('radius interface: evaluation #%d (%s, argument %s) of the history' % (r['op'], r['fn'], r['cls']),
+                                         {'ctor': c['ctor'], 'ops': c['ops'][:r['op'] + 1]}, r['out'].reshape(-1).tolist(), mcorrect)
+                            break
+                        if not vlib.all_close(mcorrect, mmemo, 1e-9):
+                            res.count('R:identity-memo-variant-would-differ')
+                            res.count('R:identity-memo-variant-would-differ:' + r['cls'])
 
     # ---------------- (D) direct oracle on grids
     g = fine_grid(ctx.n(400, 100000) * scale)
